@@ -122,6 +122,9 @@ typedef void (*usim_sighandler_t)(int);
 void usim_signal_handler(int signo, usim_sighandler_t h);
 /* plan: deliver signo to thread tid at its k-th next yield point */
 void usim_signal_plan(int tid, int signo, uint64_t after_yields);
+/* fn runs in every exiting simulated thread after its last TSD destructor round (and after a signal delivered at
+ * that point, fault "signal_after_last_tsd_destructor": then the argument is 1) */
+void usim_thread_exit_hook(void (*fn)(int past_last_destructor_signal));
 int usim_signal_depth(void);
 
 /* End of a forked child's script (never returns). */
@@ -129,6 +132,8 @@ void usim_child_exit(void) __attribute__((noreturn));
 
 /* Simulated CPU topology */
 void usim_set_ncpus(int n);
+/* pthread_create() issued by threads the library created itself (unnamed) may fail with EAGAIN (fault pthread_create_eagain) */
+void usim_lib_threads_create_fail(int on);
 
 /* Tracked-arena helpers */
 int usim_mem_is_live(const void *p);
